@@ -19,7 +19,12 @@ import LenaModel.Props.C14Tok
 * **constructing a `Combine` changes none of its arguments**: `combineInitT_fresh`.
 * **the name of a `Combine`**: `combine_name` — the keyword `name` whatever its value (also `""`), else the joined
   names; `combine_name_reaches_context`.
-* the Boolean hypotheses as the driver computes them: `chainWFk_eq`, `chainOKk_eq` (equal to `chainWFb`, `chainOKb`). -/
+* the Boolean hypotheses as the driver computes them: `chainWFk_eq`, `chainOKk_eq` (equal to `chainWFb`, `chainOKb`).
+* **seed round I/J** (end of the file): `compose_data_eq_sequence_data` — the DATA of `Compose` and of the Sequence agree
+  and are the getters applied in order with no hypothesis at all on getters, types or attribute names (an intermediate
+  `None` included); `compose_applies_every_getter`; `type_subcontext_complete` — every attribute of a typed variable,
+  whatever its name (`dim`, `combine`, …), is under its type; `combine_typed_subcontext` — a `Combine` with a type has
+  `dim`, `combine` and its keywords under its type. -/
 namespace Lena.C14
 open V
 
@@ -403,4 +408,160 @@ example : (composeInitT exN true 5 [(0, exVc)]).map (fun i => (i.1.1, getT i.1.2
       some (.str "ta"), none]), 0) := by rfl
 
 end Tok
+end Lena.C14
+
+namespace Lena.C14
+open V
+
+section seedIJ
+variable {names : List String} {D : Type}
+
+/-! ## seed round I/J: getters are arbitrary functions; attribute names are arbitrary -/
+
+/-- **`Compose(v₁..vₙ)` and the Sequence `(v₁..vₙ)` produce the same data, `vₙ.getter(…v₁.getter(x)…)`** — with NO
+hypothesis on the getters, the types or the attribute names (the `NoClash` hypothesis of `compose_eq_sequence_partial`
+concerns the context only): whenever both can be applied, the data agree and are the getters applied in order, whatever
+an intermediate result is (`None`, a falsy value, an empty container, the object the getter was given, …: `D` is any
+type, the getters any functions). -/
+theorem compose_data_eq_sequence_data {fx : Bool} (vars : List (Variable D)) (kw : Slots) {c : Variable D}
+    (hc : mkCompose names fx (vars.map some) kw = .ok c) (x : Value D) {d d' : D} {ctx ctx' : Slots}
+    (hs : seqCall names fx vars x = .ok (d, ctx)) (hcall : call names fx c x = .ok (d', ctx')) :
+    d' = d ∧ d = vars.foldl (fun y v => v.getter y) (getDataContext names x).1 := by
+  have h1 := call_data hcall
+  have h2 := seqCall_data vars x hs
+  have h3 := compose_getter hc
+  have h4 : (vars.map some).filterMap id = vars := by simp
+  rw [h4] at h3
+  refine ⟨?_, ?_⟩
+  · rw [h1, h3, h2]
+  · rw [h2]; rfl
+
+/-- **no getter of a `Compose` is skipped**: the last getter is applied to whatever the getters before it produced
+(there is no value of `D` — no "missing value" — that ends the composition early) -/
+theorem compose_applies_every_getter {fx : Bool} (vs : List (Variable D)) (w : Variable D) (kw : Slots) {c : Variable D}
+    (hc : mkCompose names fx ((vs ++ [w]).map some) kw = .ok c) (x : D) :
+    c.getter x = w.getter (chainData vs x) := by
+  have h3 := compose_getter hc
+  have h4 : ((vs ++ [w]).map some).filterMap id = vs ++ [w] := by simp
+  rw [h4] at h3
+  rw [h3]
+  simp [chainData, List.foldl_append]
+
+/-- **all the attributes of a typed variable are available under its type, whatever their names** (`dim`, `combine`,
+`variable`, `unit`, `range`, … are attribute names like any other): the sub-context `var_context[type]` of
+`Variable(name, f, type=ty, **kw)` is the whole dictionary `{"name": name, **kw}`, so every keyword is in it. -/
+theorem type_subcontext_complete {name : V} {f : D → D} {ty : String} {kw : Slots} {v : Variable D}
+    (h : mkVariable names name (.fn f) (.str ty) kw = .ok v) (hty : ty ≠ "")
+    (hk : key names ty ≠ kType names) :
+    getSlot v.varCtx (key names ty) =
+      some (.dict (dictUpdate (setSlot (emptyD names.length) (kName names) (some name)) kw)) ∧
+    ∀ j a, getSlot kw j = some a →
+      ∃ sub, getSlot v.varCtx (key names ty) = some (.dict sub) ∧ getSlot sub j = some a := by
+  unfold mkVariable at h
+  have ht : truthy (.str ty) = true := by simp [truthy, hty]
+  simp only [ht, Bool.not_true] at h
+  simp only [Bool.false_eq_true, if_false] at h
+  cases h
+  have h1 : getSlot (setSlot (setSlot (dictUpdate (setSlot (emptyD names.length) (kName names) (some name)) kw)
+      (key names ty) (some (.dict (dictUpdate (setSlot (emptyD names.length) (kName names) (some name)) kw))))
+      (kType names) (some (.str ty))) (key names ty) =
+      some (.dict (dictUpdate (setSlot (emptyD names.length) (kName names) (some name)) kw)) := by
+    rw [getSlot_setSlot, getSlot_setSlot]
+    simp [hk]
+  refine ⟨h1, ?_⟩
+  intro j a hj
+  refine ⟨_, h1, ?_⟩
+  rw [getSlot_dictUpdate, hj]
+
+/-- **a `Combine` with a type keeps ALL its attributes under its type**: `combine` (the tuple of the variables'
+contexts), `dim` (their number) and every keyword argument are in the sub-context `var_context[type]`. -/
+theorem combine_typed_subcontext (hn : NamesOK names) (hcomb : "combine" ∈ names) (hdim : "dim" ∈ names)
+    (tup : List D → D) (args : List (Option (Variable D))) (kw : Slots) {ty : String}
+    (hkt : getSlot kw (kType names) = some (.str ty)) (hty : ty ≠ "") (hk : key names ty ≠ kType names)
+    {c : Variable D} (h : mkCombine names tup args kw = .ok c) :
+    ∃ sub, getSlot c.varCtx (key names ty) = some (.dict sub) ∧
+      getSlot sub (kCombine names) = some (.seq true ((args.filterMap id).map (fun v => V.dict v.varCtx))) ∧
+      getSlot sub (kDim names) = some (.int (args.filterMap id).length) ∧
+      (∀ j a, getSlot kw j = some a → j ≠ kName names → j ≠ kCombine names → j ≠ kType names →
+        getSlot sub j = some a) := by
+  have hct : kCombine names ≠ kType names := by
+    intro he; have := key_inj hcomb he; simp at this
+  have hcd : kCombine names ≠ kDim names := by
+    intro he; have := key_inj hcomb he; simp at this
+  have hcn : kCombine names ≠ kName names := by
+    intro he; have := key_inj hcomb he; simp at this
+  have hdt : kDim names ≠ kType names := by
+    intro he; have := key_inj hdim he; simp at this
+  have hdn : kDim names ≠ kName names := by
+    intro he; have := key_inj hdim he; simp at this
+  unfold mkCombine at h
+  split at h
+  · cases h
+  · split at h
+    · cases h
+    · simp only [] at h
+      split at h
+      · cases h
+      · rename_i name hname
+        split at h
+        · cases h
+        · rename_i hnodim
+          split at h
+          · cases h
+          · have hty2 : getSlot (setSlot (setSlot (dictUpdate (emptyD names.length) (setSlot kw (kName names) none))
+                (kDim names) (some (.int (List.filterMap id args).length))) (kCombine names)
+                (some (.seq true ((List.filterMap id args).map (fun v => V.dict v.varCtx))))) (kType names)
+                = some (.str ty) := by
+              rw [getSlot_setSlot, getSlot_setSlot, getSlot_dictUpdate, getSlot_setSlot]
+              simp [Ne.symm hct, Ne.symm hdt, hkt, Ne.symm hn.name_ne_type]
+            rw [hty2] at h
+            simp only [Option.getD_some] at h
+            have hs := (type_subcontext_complete h hty hk).1
+            refine ⟨_, hs, ?_, ?_, ?_⟩
+            · rw [getSlot_dictUpdate, getSlot_setSlot, getSlot_setSlot]
+              simp [hct]
+            · rw [getSlot_dictUpdate, getSlot_setSlot, getSlot_setSlot, getSlot_setSlot]
+              simp [hdt, Ne.symm hcd]
+            · intro j a hj hjn hjc hjt
+              have hjd : j ≠ kDim names := by
+                intro he
+                rw [he] at hj
+                simp [hasKey, getSlot_setSlot, hdn, hj] at hnodim
+              rw [getSlot_dictUpdate, getSlot_setSlot, getSlot_setSlot, getSlot_setSlot, getSlot_dictUpdate,
+                getSlot_setSlot]
+              simp [hjt, hjc, hjd, hjn, hj]
+
+end seedIJ
+
+/-- a missing value goes on through the composition: `muon` returns `None` for every event, `energy` maps `None` to
+`0` — `Compose(muon, energy)` and the Sequence both give `0`, not `None` (`D = Option Nat`; the hypotheses of
+`compose_data_eq_sequence_data` are satisfiable, and an intermediate `None` occurs) -/
+example :
+    let ns := ["combine", "compose", "dim", "getter", "name", "ta", "type", "variable"]
+    let muon : Variable (Option Nat) := ⟨fun _ => none, setSlot (emptyD 8) 4 (some (.str "muon"))⟩
+    let energy : Variable (Option Nat) :=
+      ⟨fun p => match p with | none => some 0 | some e => some (e + 1), setSlot (emptyD 8) 4 (some (.str "energy"))⟩
+    (match mkCompose ns true [some muon, some energy] (emptyD 8) with
+     | .ok c => (match call ns true c (.bare (some 5)) with | .ok (d, _) => some d | .error _ => none,
+                 match seqCall ns true [muon, energy] (.bare (some 5)) with | .ok (d, _) => some d | .error _ => none)
+     | .error _ => (none, none)) = (some (some 0), some (some 0)) := by rfl
+
+/-- `Variable("position", f, type="ta", dim=3)`: `dim` is under the type (`var_context["ta"]["dim"] == 3`) -/
+example :
+    let ns := ["combine", "compose", "dim", "getter", "name", "ta", "type", "variable"]
+    (match mkVariable (D := Nat) ns (.str "position") (.fn id) (.str "ta") (setSlot (emptyD 8) 2 (some (.int 3))) with
+     | .ok v => (match getSlot v.varCtx 5 with | some (.dict sub) => getSlot sub 2 | _ => none)
+     | .error _ => none) = some (.int 3) := by rfl
+
+/-- `Combine(x, y, type="ta")` over the alphabet `combine, compose, dim, getter, name, ta, type, variable`: under `ta`
+there are `dim == 2` and the `combine` tuple (the hypotheses of `combine_typed_subcontext` are satisfiable) -/
+example :
+    let ns := ["combine", "compose", "dim", "getter", "name", "ta", "type", "variable"]
+    let x : Variable Nat := ⟨(· + 1), setSlot (emptyD 8) 4 (some (.str "x"))⟩
+    let y : Variable Nat := ⟨(2 * ·), setSlot (emptyD 8) 4 (some (.str "y"))⟩
+    (match mkCombine ns (fun l => l.sum) [some x, some y] (setSlot (emptyD 8) 6 (some (.str "ta"))) with
+     | .ok c => (match getSlot c.varCtx 5 with
+                 | some (.dict sub) => (getSlot sub 2, (getSlot sub 0).isSome, getSlot sub 4)
+                 | _ => (none, false, none))
+     | .error _ => (none, false, none)) = (some (.int 2), true, some (.str "x_y")) := by rfl
 end Lena.C14
